@@ -154,7 +154,8 @@ ApplyOp(op, a, b, heap) ==
 ROk(b) == [ok |-> TRUE, b |-> b]
 RBad(why) == [ok |-> FALSE, why |-> why]
 
-IndentNl(bs) == Concat([i \in 1 .. Len(bs) |-> IF bs[i] = 10 THEN T_nlindent ELSE <<bs[i]>>])
+\* every newline of a rendered child is followed by one more level of indentation
+IndentNl(bs) == JoinWith(SplitNl(bs), T_nlindent)
 
 RECURSIVE RenderV(_, _, _), RenderItems(_, _, _, _, _), RenderProps(_, _, _, _, _, _)
 RenderV(v, heap, path) ==
